@@ -1,5 +1,102 @@
-import SemVerif.Spec.Preds
-import SemVerif.Inventory
-/-! # Property C06 — theorems (under construction) -/
+import SemVerif.Props.T2
+import SemVerif.Lemmas.SpecRef
+/-!
+# Property C06 — every computed value is the value the source expression denotes
+
+`C06`: on the model's result the output predicate of the property reports nothing, for every
+program: whenever the program is accepted, the abstract reading of each function's root stack —
+every register operand expanded through the instruction that wrote it (the F7 reading included),
+every value record replaced by the index of its declaration, calls as events in evaluation order —
+is, statement by statement, the list the source function denotes (operands in source order,
+literals, reads resolved lexically, calls with their arguments, extension leaves, comparisons and
+logic connectives with their nesting), rendered modulo the bracketing of operator chains.
+
+`C06_exact` is the stronger equation behind it (bracketing included): corollary of `T2`
+(`Props/T2.lean`: mutual structural induction over expressions, statements and control constructs)
+and of `specStmts_ref` (the independent reference tree `specTree` is the fold's tree).  No bound on
+nesting depth, chain length or program size.
+-/
 namespace SemVerif
+
+theorem map_eq_zip {α β γ : Type} (f : β → γ) (g : α → γ) : ∀ (l1 : List β) (l2 : List α),
+    l1.map f = l2.map g → ∀ x ∈ l2.zip l1, g x.1 = f x.2
+  | [], l2, _ => by intro x hx; simp at hx
+  | b :: bs, [], _ => by intro x hx; simp at hx
+  | b :: bs, a :: as, h => by
+    simp only [List.map_cons, List.cons.injEq] at h
+    intro x hx
+    simp only [List.zip_cons_cons, List.mem_cons] at hx
+    rcases hx with rfl | hx
+    · exact h.1.symm
+    · exact map_eq_zip f g bs as h.2 x hx
+
+/-- accepted programs: every (source denotation, stack denotation) pair is an equation -/
+theorem denotePairs_eq (p : Program) (hnp : (run p).panic = none) (hacc : (run p).errors = []) :
+    ∀ x ∈ denotePairs p (run p), x.1 = x.2 := by
+  intro x hx
+  unfold denotePairs at hx
+  simp only [List.mem_map] at hx
+  obtain ⟨⟨f, b⟩, hfb, rfl⟩ := hx
+  have := map_eq_zip (fun b : Block => abstractStack b.context) (specStmts false p.rglobals) _ _ (T2 p hnp hacc) (f, b) hfb
+  dsimp only at this ⊢
+  rw [specStmts_ref]
+  exact this
+
+theorem cmpRendered_nil (tag : String) (f : DStmt → String) (pairs : List (List DStmt × List DStmt))
+    (h : ∀ x ∈ pairs, x.1 = x.2) : cmpRendered tag f pairs = [] := by
+  unfold cmpRendered
+  rw [List.flatMap_eq_nil_iff]
+  rintro ⟨⟨spec, abs⟩, i⟩ hx
+  have := h _ (List.fst_mem_of_mem_zipIdx hx)
+  dsimp only at this ⊢
+  subst this
+  simp
+
+theorem accepted_iff (r : Result) : r.accepted = true ↔ r.panic = none ∧ r.errors = [] := by
+  unfold Result.accepted
+  simp [Option.isNone_iff_eq_none, List.isEmpty_iff]
+
+/-- **C06 (exact form)** — accepted programs: the stack of every function denotes exactly the
+statement list of the source, bracketing included -/
+theorem C06_exact (p : Program) (hacc : (run p).accepted = true) :
+    (run p).roots.map (fun b => abstractStack b.context) = p.fnDecls.map (specStmts true p.rglobals) := by
+  obtain ⟨hnp, he⟩ := (accepted_iff _).mp hacc
+  rw [T2 p hnp he]
+  apply List.map_congr_left
+  intro f _
+  rw [specStmts_ref]
+
+/-- **C06** — the output predicate of the property holds on the model's result for every program -/
+theorem C06 (p : Program) : P_C06 p (run p) = [] := by
+  unfold P_C06
+  split
+  · rfl
+  · rename_i h
+    simp only [Bool.not_eq_true, Bool.not_eq_false'] at h
+    have ha : (run p).accepted = true := by
+      cases hx : acceptedWF p (run p) with
+      | true => unfold acceptedWF at hx; simp only [Bool.and_eq_true] at hx; exact hx.1
+      | false => rw [hx] at h; simp at h
+    obtain ⟨hnp, he⟩ := (accepted_iff _).mp ha
+    exact cmpRendered_nil _ _ _ (denotePairs_eq p hnp he)
+
+/-- a well-formed program with shadowing, a forward reference, a nested block, a constant and a
+three-operator chain whose bracketing is not left-to-right -/
+def exampleT2 : Program :=
+  [.fn ⟨['m'], [(['x'], .prim .u8)], .prim .u8,
+      [.letB ⟨['x'], false, none, .mk (.var ['x']) (some (.plus, .mk (.var ['K']) (some (.multiply, .mk (.lit (.u8 2)) none))))⟩,
+       .ifS (.mk (.single (.mk (.lit (.bool true)) none)) (.ifb [.letB ⟨['y'], false, none, .mk (.call ['g'] [.mk (.var ['x']) none]) none⟩]) none none),
+       .ret (.mk (.var ['x']) none)]⟩,
+     .const ⟨['K'], .prim .u8, .last (.val (.u8 1))⟩,
+     .fn ⟨['g'], [(['a'], .prim .u8)], .prim .u8, [.ret (.mk (.var ['a']) none)]⟩]
+
+/-- non-vacuity: the premise is satisfiable and the conclusion is not trivial — the example is
+accepted, and the first function denotes six statements (parameter, `let` with the bracketed chain
+`x + (K * 2)`, branch, call event, `let`, return) -/
+example : (run exampleT2).accepted = true ∧
+    ((p_specs : List (List DStmt)) = exampleT2.fnDecls.map (specStmts true exampleT2.rglobals) →
+      (p_specs.map List.length = [6, 2])) := by
+  refine ⟨by decide +kernel, ?_⟩
+  intro h; subst h; decide +kernel
+
 end SemVerif
